@@ -298,6 +298,7 @@ ssize_t write(int fd, const void *buf, size_t n) {
   if (fd != 0 && fd != logfd && fd != gate_fd) { snprintf(nm, sizeof nm, "fd%d", fd); mutating("write", nm); }
   if (fd != logfd && (nrules != 0 || have_k != 0)) {
     snprintf(nm, sizeof nm, "fd%d", fd); e = fault("write", nm);
+    if (e == 999) { if (n > 1) n = n / 2; e = 0; }          /* error code 999: a short write - half of what was offered is taken, no error */
     if (e) { errno = e; if (wfd != -1) slog("write %d %zu - = -1 %d INJECTED", fd, n, e); return -1; }
   }
   r = real(fd, buf, n);
